@@ -136,7 +136,14 @@ impl<const N: usize> AEADCipherCodec<N> {
             Some(ref mut decoder) => {
                 let mut dst = BytesMut::new();
                 decoder.decode_payload(src, &mut dst).map_err(|e| anyhow!(e))?;
-                if dst.is_empty() { Ok(None) } else { Ok(Some(dst)) }
+                if dst.is_empty() {
+                    return Ok(None);
+                }
+                if matches!(session.mode, Mode::Server) && session.address.is_none() {
+                    // a request sealed with one of the original AEAD ciphers starts with the target address
+                    session.address = Some(address::decode(&mut dst)?);
+                }
+                Ok(Some(dst))
             }
             None => self.init_payload_decoder(context, session, src),
         }
